@@ -31,6 +31,7 @@ type config struct {
 	// standard devices stay first in both lists; os.Stdout/os.Stderr point at /dev/null while the lists are built
 	AddOnly       bool
 	ErrAddedFirst bool
+	FlagsHow      int // which public way sets the flags (vlib.SetFlagsVia)
 }
 
 var flagChoices = []slog.Flags{slog.Lcaller, slog.LattrsR, slog.Ldate, slog.Ltime, slog.Lmicroseconds, slog.Lprivacypath,
@@ -53,6 +54,7 @@ func genConfig() *rapid.Generator[config] {
 		c.NLevel = rapid.SampledFrom([]int{0, 0, 0, 1, 2}).Draw(t, "nlevel")
 		c.AddOnly = rapid.IntRange(0, 3).Draw(t, "addOnly") == 0
 		c.ErrAddedFirst = rapid.Bool().Draw(t, "errAddedFirst")
+		c.FlagsHow = rapid.SampledFrom([]int{0, 0, 1, 2, 3}).Draw(t, "flagsHow")
 		return c
 	})
 }
@@ -89,7 +91,7 @@ func describeArgs(args []any) string {
 
 func run(t vlib.TB, test string, c config, k call) {
 	defer vlib.Canon()()
-	slog.SetFlags(vlib.BaseFlags ^ c.ExtraFlags | slog.LnoInterrupt)
+	vlib.SetFlagsVia(c.FlagsHow, vlib.BaseFlags^c.ExtraFlags|slog.LnoInterrupt, slog.Lcaller|slog.LattrsR|slog.Ldate|slog.Lmicroseconds|slog.Lprivacypath)
 	model := vlib.NewLevelModel()
 	log := vlib.NewEventLog()
 
